@@ -503,6 +503,7 @@ type mutant struct {
 	conf    map[string]any
 	env     map[string]string
 	same    bool // fingerprint must equal the base's
+	twin    map[string]any // the same configuration with the resolved text written literally: fingerprints must be equal
 }
 
 func scalarKind(v any) string {
@@ -626,6 +627,13 @@ func mutants(name string, base map[string]any) []mutant {
 			m4.env = map[string]string{envName: txt}
 			add("placeholder-property-missing-key", p, nil, mutate(base, p, "${property:"+propFile+"#nosuch_ZV"+"}"), true)
 			add("placeholder-property-missing-file", p, nil, mutate(base, p, "${property:/nosuch/file#k}"), true)
+			if kind == "string" && txt != "" {
+				// one variable used several times in one string, in every accepted spelling, next to a second
+				// variable and literal text; compared with the same configuration written out literally
+				m5 := add("placeholder-spellings", p, nil, mutate(base, p, "${env:"+envName+"}${ENV:"+envName+"}${ "+envName+" }${env: "+envName+" }${Env:"+envName+"_B}x${"+envName+"}"), false)
+				m5.env = map[string]string{envName: txt, envName + "_B": "b"}
+				m5.twin = mutate(base, p, txt+txt+txt+txt+"bx"+txt).(map[string]any)
+			}
 		}
 	})
 	return out
@@ -751,6 +759,14 @@ func runMutant(m mutant, baseFP string) error {
 		// keys that merely start like the ones asked for below must not satisfy a lookup
 		_ = os.WriteFile(propFile, []byte("other=1\n\nnosuch_ZV\nnosuch_ZV_more=1\n"), 0o644)
 	}
+	twinFP := ""
+	if m.twin != nil {
+		tc, terr := decode(m.twin)
+		if terr != nil {
+			return nil // the literal text is not a valid value of this field: nothing to compare
+		}
+		twinFP = fingerprint(tc)
+	}
 	conf, err := decode(m.conf)
 	if err != nil && strings.HasPrefix(err.Error(), "PANIC") {
 		return fmt.Errorf("PANIC: %v", err)
@@ -763,6 +779,11 @@ func runMutant(m mutant, baseFP string) error {
 	}
 	if err != nil {
 		return fmt.Errorf("REJECTED: %v", firstLine(err.Error()))
+	}
+	if m.twin != nil {
+		if fp := fingerprint(conf); fp != twinFP {
+			return fmt.Errorf("DIFFERENT: decoded configuration differs from the one given literally:\n%s", diff(twinFP, fp))
+		}
 	}
 	if m.same {
 		if fp := fingerprint(conf); fp != baseFP {
